@@ -28,7 +28,12 @@ var addrRe = regexp.MustCompile(`<([A-Za-z0-9.+_'/!-]+@[A-Za-z0-9.\[\]-]+)>`)
 func q(s string) string { return strconv.Quote(s) }
 
 var noAnswer = []string{"return nil", "return 42", `return "allow"`, "return {}", `error("boom")`, "return false",
-	"local x = nil\n return x.y", "return arg1", "", "return smtp", `return address.new("a","b@c")`}
+	"local x = nil\n return x.y", "return arg1", "", "return smtp", `return address.new("a","b@c")`,
+	// a handler that scribbles on what it was handed and then fails / answers nothing: no trace may remain
+	"arg1.from.address = \"tampered@evil.org\"\n for _, r in ipairs(arg1.to) do r.address = \"tampered@evil.org\" end\n error(\"boom\")",
+	"arg1.from.address = string.upper(arg1.from.address)\n for _, r in ipairs(arg1.to) do r.address = string.upper(r.address) end\n return nil",
+	"arg1.from = address.new(\"X\", \"x@tampered.org\")\n arg1.to = {}\n return 42",
+	"for _, r in ipairs(arg1.to) do r.address = \"other@elsewhere.org\"; r.name = \"N\" end\n arg1.remote_addr = \"6.6.6.6\"\n return false"}
 
 type ruleSet struct {
 	lua    []string // "[key] = function(arg1) ... end"
